@@ -321,15 +321,23 @@ Definition client_op (o : op) : Prop :=
   end.
 
 (** Well-formedness of a request.  Array: the explicit ids are pairwise distinct (the real [IntArray]
-    is a sorted set).  Graph: the local request index of every task is a valid index into the
-    request list of the message - the real server asserts it ([validate_submit]), i.e. a malformed
-    graph DOES panic the real server (sites 223 / 224 of the model). *)
+    is a sorted set, so this holds of every message that deserialises).  Graph: nothing - a task
+    graph whose task names a request index outside the request list of the message used to panic
+    the real server (assertion in [validate_submit] / index in [build_tasks_graph], sites 223 / 224 of
+    the model: finding F27); since the repair it is refused with an error before anything else is
+    looked at ([Sys.bad_graph_rq]), so sites 223 / 224 are unreachable. *)
 Definition op_ok (s : sys) (o : op) : Prop :=
   match o with
   | OpSubmit _ ids _ _ _ _ _ _ => NoDup ids
-  | OpSubmitG _ rqs ts _ => forall g, In g ts -> gt_rq g < N.of_nat (length rqs)
   | _ => True
   end.
+
+Lemma bad_graph_rq_none n ts : bad_graph_rq n ts = None -> forall g, In g ts -> gt_rq g < N.of_nat n.
+Proof.
+  induction ts as [|h r IH]; cbn [bad_graph_rq]; intros H g Hin; [destruct Hin|].
+  destruct (N.ltb (gt_rq h) (N.of_nat n)) eqn:E; [|discriminate].
+  destruct Hin as [<-|Hin]; [apply N.ltb_lt; exact E | exact (IH H g Hin)].
+Qed.
 
 (** The two facts about the pre-state that [INV] lacks, needed by the cancel request only. *)
 Definition cancel_pre (s : sys) (o : op) : Prop :=
@@ -342,7 +350,7 @@ Proof.
   pose proof (PW_PWc s [] Hpw) as Hpwc.
   destruct o; try (destruct Hco; fail); cbn [step].
   - apply ex_np. apply handle_submit_array_tot; assumption.
-  - apply ex_np. apply handle_submit_graph_tot; assumption.
+  - destruct (bad_graph_rq _ _) eqn:Eb; [reflexivity|]. apply ex_np. apply handle_submit_graph_tot; try assumption. exact (bad_graph_rq_none _ _ Eb).
   - reflexivity.
   - apply close_total. exact Hok.
   - destruct Hcp as [Hmn Hrw]. apply ex_np. apply handle_cancel_tot; assumption.
@@ -358,7 +366,7 @@ Proof.
   pose proof (PW_PWc s [] Hpw) as Hpwc.
   destruct o; try (destruct Hco; fail); cbn [step].
   - apply handle_submit_array_tot; assumption.
-  - apply handle_submit_graph_tot; assumption.
+  - destruct (bad_graph_rq _ _) eqn:Eb; [eexists; reflexivity|]. apply handle_submit_graph_tot; try assumption. exact (bad_graph_rq_none _ _ Eb).
   - eexists; reflexivity.
   - apply handle_close_tot. exact Hok.
   - destruct Hcp as [Hmn Hrw]. apply handle_cancel_tot; assumption.
